@@ -181,11 +181,11 @@ def run_job(job, ctx):
     ctx.sample({"schema": job["specs"][-1]})
 
 
-ODD_KEYS = {"a": "x__y", "b_c": "z_", "port": "_q"}
+ODD_KEYS = {"a": "x__y", "b_c": "z_", "port": "p_1__"}     # (a leading underscore is not a field key: the schema keeps such names for itself)
 
 
 def with_odd_keys(spec):
-    """the same tree with identifier keys that contain doubled / trailing / leading underscores"""
+    """the same tree with identifier keys that contain doubled / trailing / trailing underscores and digits"""
     return [[ODD_KEYS.get(k, k), with_odd_keys(v) if isinstance(v, list) else v] for k, v in spec]
 
 
